@@ -675,6 +675,17 @@ def run(ctx):
     if need - set(by_name) and not (ctx.violations or ctx.known_hits):
         raise MachineryError("negative control kinds missing: %s" % sorted(need - set(by_name)))
     phase["negative_controls"] = round(time.time() - t0, 1)
+    # ---------------- phase 2: the buffered writer's own events (guarded hooks) against HookTrace.tla ----------------
+    from drivers import hooktrace
+    wall = [c for c in cases if c["side"] == "write" and int(c["size"]) > 0]
+    wpick = wall[:: max(1, len(wall) // 40)][:40]
+    global _ROOT
+    _ROOT = tempfile.mkdtemp(prefix="c13h_")
+    try:
+        hooktrace.hook_phase(ctx, "C13", calls=[("writer case %d" % i, (lambda c=c: run_case(c))) for i, c in enumerate(wpick)])
+    finally:
+        shutil.rmtree(_ROOT, ignore_errors=True)
+        _ROOT = None
     ctx.cov["unobservable_requests_skipped"] = n_unobs
     ctx.cov["writer_behaviours_generated"] = nbeh
     ctx.assume("pyarrow ParquetFile.iter_batches(n) yields full batches of n rows regardless of row groups "
